@@ -1,7 +1,7 @@
 """C03 Velocity kinematics is the time derivative of position kinematics (DESIGN 5 C03).
 Model: coq/C03/C03_Model.v (outward composition X_GB = X_GP X_PF X_FM(q) X_MB, V_GB = shifted V_GP + H_PB_G u, stations,
 N / NInv / NDot and their transposes) over the mobilizer catalogue coq/C05/C05_Model.v.
-Theorems: coq/Props/Properties_C03.v: per-mobilizer X_FM jets (from C05), product rule for Transform composition, compose_jet
+Theorems: coq/Props/Properties_C03.v, Properties_C03_jets.v: per-mobilizer X_FM jets (from C05), product rule for Transform composition, compose_jet
 for every tree (every body velocity is the jet of its pose, every station velocity the jet of its location), N NInv relations,
 NDot the derivative of N, qdotdot decomposition, transposes as exact adjoints.
 Tie: correspondence on random simbody trees (harness/C03_probe.cpp vs the extracted pipeline): getBodyTransform, getBodyVelocity,
@@ -10,7 +10,7 @@ Failing-input search on the implementation alone (always run): finite difference
 import os, collections
 from vlib import *
 
-PROPS = ['Props/Properties_C03.v']
+PROPS = ['Props/Properties_C03.v', 'Props/Properties_C03_jets.v']   # compiled in parallel
 TYPES = ["Pin", "Slider", "Universal", "Cylinder", "BendStretch", "Planar", "Gimbal", "Bushing", "Ball", "Free",
          "Translation", "Screw", "Ellipsoid", "LineOrientation", "FreeLine", "SphericalCoords", "Weld"]
 EXTRACT = '''From Coq Require Import Extraction ExtrOcamlBasic.
